@@ -62,19 +62,24 @@ ADDED_COUNT = {'quick': 160, 'thorough': 3000}
 SLOW_KNOBS = dict(KNOBS, handshake_skew=[0.0, 0.3, 1.0, 2.0, 3.0], actions=KNOBS['actions'] + ['restart', 'restart'])
 
 
+# and the general family with programs disabled / enabled at run time on random instances (supvisors.disable / enable)
+DISABLE_KNOBS = dict(KNOBS, actions=KNOBS['actions'] + ['disable', 'disable', 'enable'])
+
+
 def plan(tier, seed):
     return [{'seed': seed * 1000003 + i} for i in range(COUNT[tier])] + \
         [{'seed': seed * 1000003 + 800000 + i, 'family': 'disabled-during-join'} for i in range(JOIN_COUNT[tier])] + \
         [{'seed': seed * 1000003 + 700000 + i, 'family': 'process-added-to-a-non-distributed-job'}
          for i in range(ADDED_COUNT[tier])] + \
-        [{'seed': seed * 1000003 + 900000 + i, 'family': 'slow-handshake'} for i in range(COUNT[tier] // 8)]
+        [{'seed': seed * 1000003 + 900000 + i, 'family': 'slow-handshake'} for i in range(COUNT[tier] // 8)] + \
+        [{'seed': seed * 1000003 + 600000 + i, 'family': 'runtime-disable'} for i in range(COUNT[tier] // 4)]
 
 
 def run_case(case):
     tracker = Tracker()
     mon = EligibilityMonitor(tracker)
     run = Run(case, {'disabled-during-join': JOIN_KNOBS, 'process-added-to-a-non-distributed-job': ADDED_KNOBS,
-                     'slow-handshake': SLOW_KNOBS}.get(
+                     'slow-handshake': SLOW_KNOBS, 'runtime-disable': DISABLE_KNOBS}.get(
         case.get('family'), KNOBS), [tracker, mon])
     violations = run.execute()
     nontrivial = mon.counters.get('requests_near_cap', 0) + mon.counters.get('requests_with_pending_load', 0) > 0
